@@ -153,3 +153,25 @@ Proof.
   cbv zeta. split; [split; [cbn; lia|]; split; [repeat constructor | intros d H; injection H as <-; lia]|].
   split; [split; [reflexivity|]; split; [discriminate | reflexivity]|]. split; vm_compute; reflexivity.
 Qed.
+
+(** ** N11: the [slice_dim] argument differs from the inputs' own slice dimension.  Without the hypothesis
+    "all inputs share the slice dimension of the result" the merge law is false of the model (and of the code):
+    the inputs are widened with THEIR slice count, here 3 values from the second input for a result with 2 slices. *)
+Definition n11_ext (a : Z) : ext jv :=
+  mk_ext (mk_hdr [3; 2; 1] (Some 0) id_aff false false) [(kA, (GConst, [JInt a]))].
+
+Lemma merge_den_refuted_N11 :
+  exists (es : list (ext jv)) e0 dim sd r,
+    hd_error es = Some e0 /\ 2 <= length es /\
+    (forall x, In x es -> valid x /\ shape (hdr_of x) = shape (hdr_of e0)) /\
+    from_sequence jv_eqb JNull es dim None sd = Ok r /\
+    axis_of (out_sdim sd e0) dim = Some AxS /\
+    trailing1b (shape (hdr_of r)) = false /\
+    lookup_e r kA = Some (GSlices, [JInt 1; JInt 2; JInt 2; JInt 2]) /\ ~ valid r.
+Proof.
+  exists [n11_ext 1; n11_ext 2], (n11_ext 1), 2, (Some 2).
+  eexists. split; [reflexivity|]. split; [cbn; lia|]. split.
+  { intros x [<-|[<-|[]]]; (split; [apply validb_valid; vm_compute; reflexivity | reflexivity]). }
+  split; [vm_compute; reflexivity|]. split; [reflexivity|]. split; [reflexivity|]. split; [reflexivity|].
+  intros [_ [_ H]]. specialize (H kA GSlices _ (or_introl eq_refl)). destruct H as [_ [_ H]]. vm_compute in H. discriminate H.
+Qed.
